@@ -17,6 +17,13 @@ UNITS = {
                  "precondition of new(): rows are Ok, seqs strictly increasing within [start_seq,last_seq], last_seq < u64::MAX, summed estimated size fits usize (SQL `ORDER BY seq` + `seq >= start AND seq <= end` at the call sites; not proved)",
                  "error rows: after Some(Err) nothing is promised (callers break)",
              ]),
+        dict(kind="kani", name="c08_chunk_range", crate="kani/c08_chunk_range",
+             harnesses=[
+                 dict(name="chunk_range_size10_len_le_45", bound="chunk size 10 (the call site's), range length <= 45, any start < 2^62"),
+                 dict(name="chunk_range_symbolic_size_len_le_12", tier="thorough", bound="chunk size 1..=4, range length <= 12, any start < 2^62"),
+             ],
+             trusted=["generic T instantiated with u64 (CrsqlDbVersion delegates Step/Add/Ord to its field)", "std step_by / RangeInclusive iteration as compiled by Kani"],
+             assumptions=["versions < 2^62 so block_start + chunk_size cannot overflow; chunk_size >= 1 (step_by panics on 0; the only call site passes 10)"]),
     ],
 }
 
@@ -40,12 +47,15 @@ UNITS["C18"] = [
          under_contract=["Members::remove_member", "MemberState::new", "MemberState::is_ring0"],
          vacuity=["remove_member", "new", "is_ring0"], replay="c18_members",
          assumptions=["std BTreeMap contract (lib/maps.vrs); derived PartialEq on Timestamp is field equality"]),
+    dict(kind="verus", name="c18_add_rtt", template="specs/c18_add_rtt.vrs",
+         under_contract=["Members::add_rtt"], vacuity=["add_rtt"], replay="c18_members",
+         assumptions=["contracts of std Duration::{as_secs,subsec_millis}, BTreeMap::entry().or_default(), CircularBuffer::push_front; recalculate_rings' frame (checked by the Kani unit)"]),
     dict(kind="kani", name="c18_members", crate="kani/c18_members",
          harnesses=[
              dict(name="remove_member_contract", bound="<=2 existing members, ids/addrs over 4 values, ts/cluster full u64/u16; inductive step from an arbitrary state"),
              dict(name="add_member_contract", bound="<=2 existing members, ids/addrs over 4 values, ts/cluster full u64/u16; inductive step from an arbitrary state"),
              dict(name="add_member_keeps_address_index", bound="same"),
-             dict(name="add_rtt_contract", bound="<=2 members, 20-slot sample history fully symbolic (< 2^40 ms)"),
+             dict(name="recalculate_rings_contract", bound="<=2 members, <=3 recorded samples (< 2^20 ms) for one address"),
              dict(name="ring0_contract", bound="<=2 members"),
          ],
          trusted=["stand-in: array-backed map for std BTreeMap (capacity 3)", "stand-in: array ring buffer for circular_buffer::CircularBuffer",
